@@ -51,7 +51,7 @@ func (k *Kernel) setup() {
 	if nClients == 0 {
 		nClients = 1
 	}
-	base := "http://" + baseHost
+	base := "http://" + baseHost + p.MountPrefix
 	if p.BaseSlash {
 		base += "/"
 	}
